@@ -41,7 +41,7 @@ from lib.core import Ctx, rat
 from lib import stage
 
 ID = "C19"
-LEAN_TARGETS = ["AiuVerif.Props.C19"]
+LEAN_TARGETS = ["AiuVerif.Props.C19", "AiuVerif.Props.C19Link"]
 THEOREMS = [
     "AiuVerif.C19.merge_sorted_disjoint",
     "AiuVerif.C19.merge_covers",
@@ -62,6 +62,7 @@ THEOREMS = [
     "AiuVerif.C19.split_zero_length_period",
     "AiuVerif.C19.bounds_fail_negative_power",
     "AiuVerif.C19.ts_zero_is_ignored",
+    "AiuVerif.C19.bounds_behind_compute_power",   # Watts >= 0 discharged by C10.nonneg
 ]
 RULE = ("ops merge/msplit/split/stats/pipe. Exhaustive: all kernel families of <=3 intervals with endpoints 0..4 "
         "(merge), all power periods in 0..4 x kernel families of <=2 (quick) / <=3 (thorough) intervals over 0..5 "
